@@ -346,7 +346,7 @@ def run_all(mir_path, repo, jobs=4, backend='imem'):
     t0 = time.time()
     tasks = [(mir_path, repo, n, backend) for n in histories()]
     with mp.get_context('fork').Pool(min(jobs, len(tasks)), initializer=_worker_init) as pool:
-        outs = pool.map(run_history, tasks, chunksize=1)
+        outs = pool.map_async(run_history, tasks, chunksize=1).get(timeout=int(os.environ.get('VERIF_I_TIMEOUT', '600')))
     return outs, time.time() - t0
 
 
